@@ -3,6 +3,7 @@
   volatile state a crash loses.
 -/
 import MW.Lemmas.PersistFault
+import MW.Lemmas.LedgerReorg3
 namespace MW.Lemmas.PersistCrash
 open MW MW.Model.Ledger MW.Model.Persist MW.Spec.Persist MW.Lemmas.PersistOp MW.Lemmas.PersistFault
 
@@ -470,5 +471,74 @@ theorem follower_retry (env : Env) (n : Nat) (b b2 xb : Block) (P : PStore) (V :
     | ok r2 =>
       obtain ⟨s2, c2⟩ := r2
       simp [volAfterBlock_comp]
+
+-- ------------------------------------------------------------------ on top of the ledger invariant (MW.Lemmas.Ledger)
+
+section LedgerInv
+open MW.Spec.Books MW.Lemmas.Ledger
+
+/-- the persistence model's block operation IS the ledger model's processBlock -/
+theorem processBlock_blockTx (c : Ctx) (s : Store) (v : Vol) (b : Block) :
+    processBlock c s v b =
+      match blockTx c s v.best b with
+      | .error _ => (s, v, false)
+      | .ok (s', ro, ad) => (s', volAfterBlock v b ro ad, true) := by
+  unfold processBlock blockTx volAfterBlock
+  rfl
+
+/-- BestInv from the ledger invariant: the follower's tip is the tip of the chain whose books the store holds -/
+theorem bestInv_of_inv {c : Ctx} {s : Store} {S : List Block} {b : Block} {n : BlockMeta}
+    (hI : Inv c s (S.take (b.height + 1))) (hb : S[b.height]? = some b) (hn : n = ⟨b.height, b.id⟩) :
+    n.height = s.syncedTo ∧ AMap.get s.sync s.syncedTo = some n.hash := by
+  have hl : b.height < S.length := (List.getElem?_eq_some_iff.1 hb).1
+  have hlen : (S.take (b.height + 1)).length = b.height + 1 := by rw [List.length_take]; omega
+  have hs : s.syncedTo = b.height := by have := hI.syncedTo; omega
+  subst hn
+  refine ⟨hs.symm, ?_⟩
+  rw [hs, hI.sync, syncOf, getElem?_take_of_lt (Nat.lt_succ_self _), hb]; rfl
+
+/-- pinv_block: EVERY successful block operation (direct extension, reorganisation with any number of
+    disconnects and connects, stale or duplicate notification) keeps BestInv, SyncWf and the ledger
+    invariant — for stores that hold the books of a chain (C01's `Inv`) with all address owners ready. -/
+theorem block_step_inv (env : Env) (n : Nat) (b : Block) (P : PStore) (V : PVol) (S : List Block)
+    (H : ReorgHyp (ctxOf env V) S) (hinj : IdInj (b :: (S ++ env.node.chain)))
+    (hI : Inv (ctxOf env V) P.led S) (hv : V.led.best = tipMeta S)
+    (hgen : b.height = 0 → b.prev ≠ (tipMeta S).hash)
+    (hAR : AllReady (ctxOf env V).own (readyWallets P.led (ctxOf env V).wallets))
+    (hne : (readyWallets P.led (ctxOf env V).wallets).isEmpty = false)
+    (hok : ((opBlock env n b).run none P V).ok = true) :
+    BestInv ((opBlock env n b).run none P V).P ((opBlock env n b).run none P V).V ∧
+    SyncWf ((opBlock env n b).run none P V).P ∧
+    ∃ S', Inv (ctxOf env V) ((opBlock env n b).run none P V).P.led S' ∧
+      ((opBlock env n b).run none P V).V.led.best = tipMeta S' ∧ GoodChain S' := by
+  obtain ⟨s', v', ok, hpb, hcase⟩ := MW.Lemmas.Ledger.processBlock_total H hinj hI hv hgen hAR hne
+  rw [processBlock_blockTx] at hpb
+  rw [block_none] at hok ⊢
+  cases hb : blockTx (ctxOf env V) P.led V.led.best b with
+  | error e => simp [hb] at hok
+  | ok r =>
+    obtain ⟨s1, ro, ad⟩ := r
+    rw [hb] at hpb
+    simp only [] at hpb ⊢
+    have e1 : s' = s1 := by cases hpb; rfl
+    have e2 : v' = volAfterBlock V.led b ro ad := by cases hpb; rfl
+    have e3 : ok = true := by cases hpb; rfl
+    subst e1 e2 e3
+    rcases hcase with ⟨hf, _, _⟩ | ⟨_, hbest, _, hwhich⟩
+    · cases hf
+    · have core : ∀ (N : List Block), GoodChain N → N[b.height]? = some b → Inv (ctxOf env V) s' (N.take (b.height + 1)) →
+          BestInv { P with led := s' } { V with led := volAfterBlock V.led b ro ad } ∧ SyncWf { P with led := s' } ∧
+          ∃ S', Inv (ctxOf env V) s' S' ∧ (volAfterBlock V.led b ro ad).best = tipMeta S' ∧ GoodChain S' := by
+        intro N hN hbN hIN
+        have hbi := bestInv_of_inv hIN hbN hbest
+        refine ⟨⟨hbi.1, hbi.2⟩, ?_, N.take (b.height + 1), hIN, ?_, goodChain_take hN b.height⟩
+        · unfold SyncWf; simp [hbi.2]
+        · rw [hbest, tipMeta_take hN hbN]
+      rcases hwhich with ⟨hbN, hIN⟩ | ⟨hbS, hIS⟩
+      · exact core _ H.goodN hbN hIN
+      · exact core _ H.goodS hbS hIS
+
+
+end LedgerInv
 
 end MW.Lemmas.PersistCrash
